@@ -426,7 +426,7 @@ func (c *Ctx) Finish() int {
 	fails := append(append([]*Obligation{}, bad...), undecided...)
 	replay := ""
 	if len(fails) > 0 {
-		dir := filepath.Join(c.Root, "evidence", "replay")
+		dir := envOr("VERIF_REPLAY_DIR", filepath.Join(c.Root, "evidence", "replay"))
 		os.MkdirAll(dir, 0o755)
 		replay = filepath.Join(dir, fmt.Sprintf("%s.json", c.Prop))
 		rb, _ := json.MarshalIndent(map[string]any{"property": c.Prop, "tier": c.Tier, "failed_obligations": fails}, "", " ")
